@@ -305,6 +305,33 @@ pub fn check_item(s: Subj, it: &Item, full: usize, max_pending: u32, stats: &mut
             }
         }
     }
+    // 4b. the sans-IO readers used incrementally on ONE stream object: the input becomes available chunk by chunk, the same
+    //     object is asked again after every need-more. Per-stream decoding state (what is legal as the first frame, ...)
+    //     must advance only when an element was actually decoded, so the outcome equals the one of the whole input.
+    for ch in &chunks {
+        let mut avail = vec![];
+        let mut acc = 0usize;
+        // an empty first step: the reader is asked before any byte is there
+        avail.push(0);
+        for c in ch {
+            acc += c;
+            avail.push(acc.min(n));
+        }
+        if acc < n {
+            avail.push(n);
+        }
+        for buffered in [true, false] {
+            let Some(r) = run_incremental(s, input, &avail, it.count, buffered) else { break };
+            stats.runs += 1;
+            let name = if buffered { "read_frame_from_buffer" } else { "read_frame" };
+            if r.vals != b.vals || r.fin != b.fin {
+                return Err(format!("incremental {name} on one stream object, input available in steps {avail:?}: {:?}/{:?} but the whole input at once gives {:?}/{:?}", r.vals, r.fin, b.vals, b.fin));
+            }
+            if b.fin == Fin::Done && r.consumed != b.consumed {
+                return Err(format!("incremental {name}, steps {avail:?}: consumed {} bytes, whole input {}", r.consumed, b.consumed));
+            }
+        }
+    }
     // 5. no over-read: with extra bytes after the element(s) and a stalling source, completion must not need them
     if base.fin == Fin::Done {
         let mut ext = input[..base.consumed].to_vec();
